@@ -127,10 +127,14 @@ def explore_hw(build, make_observer, cfg, tier, seed, *, only=None, max_states=1
                cells=comp.n_cells, t_bfs=round(t_bfs, 2))
     if r.violation is not None:
         trace = [list(l) for l in r.violation["trace"]]
-        err, cyc = rederive(build, make_observer, cfg, trace, only_arg, pass_hw=pass_hw)
+        try:
+            err, cyc = rederive(build, make_observer, cfg, trace, only_arg, pass_hw=pass_hw)
+        except ToolFailure:
+            err, cyc = None, None
         if err is None:
-            raise ToolFailure(f"violation {r.violation['err']!r} found on the compiled netlist is "
-                              f"not reproduced by amaranth.sim (cfg={cfg!r})")
+            # not reproduced on a freshly built instance: is it reproduced by the simulator on the explored
+            # elaboration itself?  Then the hardware depends on the history of the process (module-level state).
+            err, cyc = _same_design_confirms(h, comp, trace, r.violation, cfg)
         sig = dict(kind="oracle")
         if isinstance(err, dict) and "signature" in err:
             sig = err["signature"]
@@ -168,8 +172,28 @@ def explore_hw(build, make_observer, cfg, tier, seed, *, only=None, max_states=1
             outs, st = comp.step(st, letter)
             if tuple(outs) != got[t]:
                 diff = [(n, a, b) for n, a, b in zip(comp.probe_names, outs, got[t]) if a != b]
-                raise ToolFailure(f"compiled netlist and amaranth.sim disagree at cycle {t}: {diff} "
-                                  f"cfg={cfg!r} trace={path[:t + 1]!r}")
+                same = simulate(h, path[:t + 1], probe_names=set(comp.probe_names), design=comp.design)
+                st2 = comp.init
+                for t2, l2 in enumerate(path[:t + 1]):
+                    o2, st2 = comp.step(st2, l2)
+                    if tuple(o2) != same[t2]:
+                        raise ToolFailure(f"compiled netlist and amaranth.sim disagree at cycle {t2}: {diff} "
+                                          f"cfg={cfg!r} trace={path[:t2 + 1]!r}")
+                # the compiled netlist is faithful to ITS elaboration; a fresh instance of the same configuration is
+                # different hardware.  Judge the fresh instance with the oracle as well.
+                try:
+                    err, cyc = rederive(build, make_observer, cfg, [list(l) for l in path[:t + 1]], only_arg, pass_hw=pass_hw)
+                except ToolFailure:
+                    err, cyc = None, None
+                if err is not None:
+                    sig = err.get("signature", dict(kind="oracle")) if isinstance(err, dict) else dict(kind="oracle")
+                    err = dict(err, note="found on a second instance of the same configuration built in the same process "
+                                         "(the explored first instance satisfies the oracle on this path)") if isinstance(err, dict) else err
+                    res["violation"] = dict(kind="hw", err=err, trace=[list(l) for l in path[:t + 1]], cycle=cyc,
+                                            inputs=comp.in_names, probes=comp.probe_names, signature=sig)
+                    return res
+                res["instance_dependent_hardware"] = res.get("instance_dependent_hardware", 0) + 1
+                break
         cycles += len(path)
         traces += 1
         node = leaf
@@ -194,6 +218,21 @@ def explore_hw(build, make_observer, cfg, tier, seed, *, only=None, max_states=1
         res["sample"] = dict(cfg=cfg, trace=rows)
     res["t_total"] = round(time.time() - t0, 2)
     return res
+
+
+def _same_design_confirms(h, comp, trace, violation, cfg):
+    same = simulate(h, [tuple(l) for l in trace], probe_names=set(comp.probe_names), design=comp.design)
+    st = comp.init
+    for t, l in enumerate(trace):
+        o, st = comp.step(st, tuple(l))
+        if tuple(o) != same[t]:
+            raise ToolFailure(f"violation {violation['err']!r} found on the compiled netlist is not reproduced by "
+                              f"amaranth.sim, and the compiled netlist disagrees with the simulation of its own "
+                              f"elaboration at cycle {t} (cfg={cfg!r})")
+    err = violation["err"]
+    if isinstance(err, dict):
+        err = dict(err, note='confirmed by amaranth.sim on the explored elaboration itself; a freshly built instance of the same configuration behaves differently, i.e. the generated hardware depends on what was built or elaborated earlier in the process')
+    return err, len(trace) - 1
 
 
 def aggregate(results):
@@ -293,9 +332,13 @@ def explore_comb(build, make_ref, cfg, tier, seed, *, letter_cap=40000, sim_budg
                 if e is not None and outs[i] != e:
                     # re-derive in the simulator
                     got = simulate(build(cfg), [letter], probe_names=set(comp.probe_names))[0]
+                    note = None
                     if got[i] != outs[i]:
-                        raise ToolFailure(f"compiled netlist and amaranth.sim disagree on {p} (cfg={cfg!r})")
-                    err = dict(msg=f"{p}={outs[i]:#x} expected {e:#x}", inputs={n: letter[comp.in_index[n]] for n in comp.in_names if letter[comp.in_index[n]]},
+                        same = simulate(h, [letter], probe_names=set(comp.probe_names), design=comp.design)[0]
+                        if same[i] != outs[i]:
+                            raise ToolFailure(f"compiled netlist and amaranth.sim disagree on {p} (cfg={cfg!r})")
+                        note = 'confirmed by amaranth.sim on the explored elaboration itself; a freshly built instance of the same configuration behaves differently, i.e. the generated hardware depends on what was built or elaborated earlier in the process'
+                    err = dict(msg=f"{p}={outs[i]:#x} expected {e:#x}" + (f" [{note}]" if note else ""), inputs={n: letter[comp.in_index[n]] for n in comp.in_names if letter[comp.in_index[n]]},
                                signature=dict(kind="oracle", what=ref.what(p) if hasattr(ref, "what") else p))
                     return dict(states=1, transitions=evals, violation=dict(
                         kind="comb", err=err, trace=[list(letter)], inputs=comp.in_names, probes=comp.probe_names,
@@ -311,7 +354,22 @@ def explore_comb(build, make_ref, cfg, tier, seed, *, letter_cap=40000, sim_budg
             outs, _ = comp.step(comp.init, letter)
             if tuple(outs) != tuple(g):
                 diff = [(n, a, b) for n, a, b in zip(comp.probe_names, outs, g) if a != b]
-                raise ToolFailure(f"compiled netlist and amaranth.sim disagree: {diff} cfg={cfg!r} letter={letter!r}")
+                same = simulate(h, [letter], probe_names=set(comp.probe_names), design=comp.design)[0]
+                if tuple(same) != tuple(outs):
+                    raise ToolFailure(f"compiled netlist and amaranth.sim disagree: {diff} cfg={cfg!r} letter={letter!r}")
+                # a second instance of the same configuration is different hardware: judge it with the oracle too
+                exp = ref.expected(letter)
+                for pn, i in comp.probe_index.items():
+                    e = exp.get(pn)
+                    if e is not None and g[i] != e:
+                        err = dict(msg=f"{pn}={g[i]:#x} expected {e:#x} [on a second instance of the same configuration built "
+                                       f"in the same process; the first instance satisfies the oracle]",
+                                   inputs={n: letter[comp.in_index[n]] for n in comp.in_names if letter[comp.in_index[n]]},
+                                   signature=dict(kind="oracle", what=ref.what(pn) if hasattr(ref, "what") else pn))
+                        return dict(states=1, transitions=evals, violation=dict(
+                            kind="comb", err=err, trace=[list(letter)], inputs=comp.in_names, probes=comp.probe_names,
+                            signature=err["signature"]))
+                break
         cycles = len(sampled)
     res = dict(states=1, transitions=evals, max_depth=1, capped=None, outcomes=len(outcomes),
                traces_validated=1 if sampled else 0, cycles_validated=cycles, nodes_on_validated_traces=1,
